@@ -223,7 +223,7 @@ CHECKS["C20"] = dict(
 
 CHECKS["C13"] = dict(
     level="model_checking", engine="E4",
-    technique="stateless model checking of the real per-thread kernel body: every execution order of the launch's threads is enumerated for launches of up to 6 (quick) / 8 (thorough) threads "
+    technique="stateless model checking of the real per-thread kernel body: every execution order of the launch's threads is enumerated for launches of up to 6 (quick) / 7 (thorough) threads "
               "(plus every order with one duplicated thread), each on a fresh poisoned output; for larger launches a MEASURED independence relation (per-thread write footprint = exactly its own "
               "cell, no read of the output, inputs read-only) reduces all T! orders to one Mazurkiewicz trace, of which four representatives are executed; a separate free-running pass runs the same "
               "bodies on real threads under ThreadSanitizer",
@@ -233,12 +233,12 @@ CHECKS["C13"] = dict(
                "twice) over operand shapes S(1..3,3) (thorough S(1..4,3)) and every launch geometry block in {1,2,3,4,5,7,8,16,32,33} (thorough 1..33) x grid from exactly covering to 2x over-provisioned, the "
                "real kernel body (create_mutable_array / create_array from raw triples / functional::apply of the extracted composition / assign_result) is executed once per thread under the schedule explorer; "
                "the final output must equal host evaluation and threads with id >= output size must write nothing.",
-    units=[U("kernel", "harness/c13_kernel.cpp", weight=6),
+    units=[U("kernel", "harness/c13_kernel.cpp", weight=12),
            U("kernel_san", "harness/c13_kernel.cpp", flags=["-DC13_THIN"], san=True, family="kernel", shadow=True, weight=6, run_tier="quick"),
            U("kernel_tsan", "harness/c13_kernel.cpp", flags=["-DC13_TSAN"], tsan=True, libs=["-lpthread"], family="kernel", shadow=True, weight=4, run_tier="quick", env={"TSAN_OPTIONS": "halt_on_error=1:die_after_fork=0"})],
     rule="case = (program, operand shapes, reduction axis, block, grid); inside a case: 2 footprint runs per thread + all T! orders (+ duplicated-thread orders) or 4 representative orders; "
          "states = distinct output-buffer contents observed after a thread step, transitions = thread steps executed under the schedule explorer; non-trivial = output has > 1 element and the launch has > 1 thread; distinct = distinct case key",
-    bounds=dict(quick="shapes S(1..3,3); 10 block sizes; all orders for T<=6, duplicates for T<=5", thorough="shapes S(1..4,3); block 1..33; all orders for T<=8, duplicates for T<=6"),
+    bounds=dict(quick="shapes S(1..3,3); 10 block sizes; all orders for T<=6, duplicates for T<=5", thorough="shapes S(1..4,3); block 1..33; all orders for T<=7, duplicates for T<=6"),
     assumptions=["thread bodies are taken as atomic steps: justified per launch by the measured footprints (single store to the thread's own cell, value independent of the output's previous contents, inputs on read-only pages)",
                  "host evaluation is the reference (its agreement with NumPy semantics is the business of C03-C08)"],
     min_outcomes=500,
@@ -410,3 +410,51 @@ CHECKS["C17"] = dict(
                  "nmtools pooling has no padding / dilation arguments"],
     min_outcomes=2000,
 )
+
+CHECKS["C14"] = dict(
+    level="model_checking", engine="E2",
+    technique="bounded exhaustive exploration of functor PROGRAMS (types): every split of the attribute / operand applications of every functor (currying), every 2- and 3-chain (thorough: 4-chains over a reduced alphabet) "
+              "over a 12-letter alphabet incl. the combinators swap / dup / dig / bury in every parenthesisation, and a fixed list of 32 nested views for extraction; the oracle is differential (the direct view call), every program "
+              "is executed over exhaustive operand-shape and attribute menus and compared at every element",
+    level_note="trusted: the direct view call as the reference (its agreement with NumPy is C03-C08's business), the shape-only model engine/nmc_ref_c14.hpp used by the enumerator, g++ 12. Bounded: the program lists and menus in the evidence.",
+    level_text="(i) f[attrs...](operands...) equals the view call for every functor of array/functional (shape/indexing, ufuncs, reductions, accumulations, outer, activations, conv, pooling, batch_norm, matmul ...) and every "
+               "composition of the operand count into successive (...) groups interleaved with the [attr] applications; (ii) (f*g)(x...) == f(g(x...), rest...) and all parenthesisations of 3- / 4-chains agree, binary functors and "
+               "combinators in every position; (iii) apply(get_function_composition(v), get_function_operands(v)) reproduces v, the extracted operands are the original leaves by ADDRESS in order, and get_compute_graph(v) has one "
+               "node per operand occurrence / alias and per operation with exactly the operation-input edges and pairwise distinct ids.",
+    units=[U("cur_g%d" % g, "harness/c14_functional.cpp", flags=["-DC14_PART=1", "-DC14_GROUP=%d" % g]) for g in range(1, 9)] +
+          [U("cmp2", "harness/c14_functional.cpp", flags=["-DC14_PART=2", "-DC14_LEN=2"], weight=2)] +
+          [U("cmp3_s%d" % k, "harness/c14_functional.cpp", flags=["-DC14_PART=2", "-DC14_LEN=3", "-DC14_SLICE=%d" % k], weight=2, tiers=(["quick", "thorough"] if k in (0, 1, 2, 8) else ["thorough"])) for k in range(12)] +
+          [U("cmp4_s%d_%d" % (k, j), "harness/c14_functional.cpp", flags=["-DC14_PART=2", "-DC14_LEN=4", "-DC14_SLICE=%d" % k, "-DC14_SUB=%d" % j], tiers=["thorough"]) for k in range(7) for j in range(7)] +
+          [U("ext_g%d" % g, "harness/c14_functional.cpp", flags=["-DC14_PART=3", "-DC14_GROUP=%d" % g, "-DC14_ASSUME_ALIAS_FIX"]) for g in range(1, 4)] +
+          [U("cur_g8_san", "harness/c14_functional.cpp", flags=["-DC14_PART=1", "-DC14_GROUP=8"], san=True, family="cur_g8", shadow=True, tiers=["thorough"], run_tier="quick", asan_options="malloc_context_size=0:symbolize=0"),
+           U("ext_g2_san", "harness/c14_functional.cpp", flags=["-DC14_PART=3", "-DC14_GROUP=2", "-DC14_ASSUME_ALIAS_FIX"], san=True, family="ext_g2", shadow=True, tiers=["thorough"], run_tier="quick", asan_options="malloc_context_size=0:symbolize=0")],
+    rule="case = (program, split / parenthesisation / check id, operand shapes, attribute lists); non-trivial = the direct evaluation has a value with >= 2 elements (extraction: >= 2 leaf occurrences for the operand check; graph always); "
+         "states = distinct programs x inputs, transitions = executions; distinct = distinct key",
+    bounds=dict(quick="currying: 8 functor groups, all splits; 2-chains: all 144 over 12 letters; 3-chains: 4 of the 12 slices (rightmost letter negative / subtract / sum / swap); extraction: 32 programs of depth 1..3; operand 0 from S(1..3,3)",
+                thorough="all 12 3-chain slices; 4-chains over the reduced 7-letter alphabet in 5 parenthesisations; 3 extra depth-4 extraction programs; reshape menus with all 3-factorisations"),
+    assumptions=["chains the library rejects at compile time (fail types / static_asserts) are counted (chains_rejected_by_compiler) and not instantiated", "fn::clip does not compile for array operands on the pinned tree",
+                 "matmul with an optional operand is excluded: the direct view itself keeps a pointer to a temporary (reported under known findings)"],
+    min_outcomes=2000,
+)
+
+# ---- C09 (part 2): the container-kind matrix; its unit partition is the measured table in the header comment of harness/c09_kinds.cpp
+import re as _re, os as _os
+def c09_kind_units():
+    us = []
+    src = _os.path.join(_os.path.dirname(_os.path.dirname(_os.path.abspath(__file__))), "harness", "c09_kinds.cpp")
+    for line in open(src):
+        m = _re.match(r"^//\s+((?:idx|view|arr)_[qt]_\w+)\s+(quick|thorough)\s+(-D.*)$", line.rstrip())
+        if m:
+            # quick units also run in the thorough tier (the thorough units add the deeper deviation bound)
+            us.append(U("k_" + m.group(1), "harness/c09_kinds.cpp", opt="-O0", family="kinds", shards=1, flags=m.group(3).split(),
+                        tiers=(["quick", "thorough"] if m.group(2) == "quick" else ["thorough"])))
+    return us
+CHECKS["C09"]["units"] += c09_kind_units()
+CHECKS["C09"]["level_text"] += (" Kind matrix: for ~25 index functions, 18 views with shape-like arguments and 4 views over 21 array-operand kinds, a common input set of 6-10 value tuples per operation is executed under every "
+                                "supported combination of argument kinds (dynamic list, tuple of ct, clipped tuple, fixed array, bounded static_vector, run-time tuple, raw C array, array of clipped) within the deviation "
+                                "bound (quick: <= 1 deviation + uniform + the full kind x kind matrix of 2-argument index functions; thorough: <= 3 for index functions, <= 2 for views) and must give the observation of the "
+                                "all-dynamic call; constant-typed results (to_value_v of the TYPE) and constexpr evaluation are compared with the run-time result.")
+CHECKS["C09"]["rule"] += "; kind matrix: case = (operation, input index, kind id per argument); non-trivial = at least one argument departs from the dynamic kind and the combination is supported"
+CHECKS["C09"]["assumptions"] += ["kind combinations whose result is a fail type are skipped and counted (skipped_unsupported), combinations that hard-error at compile time are excluded by commented tables in harness/c09_kinds.cpp (excluded_hard_error)"]
+CHECKS["C09"]["only_differential"] = False    # the kind-matrix units report their own failures; the re-used harness units are filtered by family below
+CHECKS["C09"]["ignore_families"] = [n for (n, s_, f, w) in C09_SRC]
